@@ -679,7 +679,7 @@ class PacketBuilder:
                 if valid is None or len(valid) != 1:
                     break
                 cur = self.cm[valid[0]]
-        except (ref.ModelError, ref.NegativeLength, ref.OverRead) as ex:
+        except (ref.ModelError, ref.NegativeLength, ref.OverRead, ref.DontCare) as ex:
             aborted = type(ex).__name__
             # keep what we have: the header (48 bits) is always there because it cannot fail
             if len(allbits) < 48:
